@@ -74,11 +74,13 @@ def load(repo=None):
         # functions that did not exist on the tree the rules were confirmed on are analysed in place at their call sites
         kp = os.path.join(os.path.dirname(os.path.dirname(os.path.abspath(__file__))), "known_fns.txt")
         F.new_helpers = {"new": [], "inlined": [], "kept": []}
+        F.renamed = []
         F.raw_fns = F.fns
         if os.path.exists(kp) and not os.environ.get("GPA_NO_INLINE_NEW"):
             with open(kp) as f:
                 known = {l.strip() for l in f if l.strip()}
             from . import inline
+            F.renamed = apply_renames(F, known, set(build.CRATES))
             comb = []
             cp = os.path.join(os.path.dirname(kp), "known_closures.txt")
             if os.path.exists(cp):
@@ -94,22 +96,100 @@ def load(repo=None):
             # 2. new helpers are analysed in place
             F.new_helpers = inline.inline_new_helpers(F, known, set(build.CRATES))
             F.new_helpers["combinators"] = comb
+            # 3. loops over an array literal are the body once per element
+            unr = []
+            for fid_ in list(F.fns):
+                f_ = F.fns[fid_]
+                if f_.get("crate") in build.CRATES:
+                    nf_, n_ = inline.unroll_array_loops(F, f_)
+                    if nf_ is not None and n_:
+                        nf_["crate"] = f_.get("crate")
+                        F.fns[fid_] = nf_
+                        unr.append((fid_, n_))
+            F.new_helpers["unrolled"] = unr
         _cache[fdir] = F
     return _cache[fdir]
 
 
+def apply_renames(F, known, crates):
+    """a function of the confirmed tree that is gone, and exactly one new function with the same signature in the same module /
+    impl (a rename) or with the same name elsewhere (a move): the view shows it under the id the rules know. Returns [(old, new)]."""
+    import json, re
+    sp = os.path.join(os.path.dirname(os.path.dirname(os.path.abspath(__file__))), "known_sigs.json")
+    if not os.path.exists(sp):
+        return []
+    sigs = json.load(open(sp))
+    cur = {fid for fid, f in F.fns.items() if f["kind"] in ("Fn", "AssocFn") and f.get("crate") in crates and not fid.startswith("<")}
+    missing = sorted(k for k in known if k not in cur and k in sigs)
+    new = sorted(c for c in cur if c not in known)
+    if not missing or not new:
+        return []
+    sig_now = {c: [str(l.get("ty")) for l in F.fns[c]["locals"][:F.fns[c]["arg_count"] + 1]] for c in new}
+    owner = lambda x: x.rsplit("::", 1)[0]
+    short = lambda x: x.rsplit("::", 1)[-1]
+    pairs, used = [], set()
+    for m in missing:
+        same_owner = [c for c in new if c not in used and owner(c) == owner(m) and sig_now[c] == sigs[m]]
+        same_name = [c for c in new if c not in used and short(c) == short(m) and sig_now[c] == sigs[m]]
+        others = [x for x in missing if x != m and owner(x) == owner(m) and sigs[x] == sigs[m]]
+        pick = None
+        if len(same_owner) == 1 and not others:
+            pick = same_owner[0]
+        elif len(same_name) == 1:
+            pick = same_name[0]
+        if pick:
+            pairs.append((m, pick))
+            used.add(pick)
+    if not pairs:
+        return []
+    for old, nw in pairs:
+        pat = re.compile(re.escape(nw) + r"(?![A-Za-z0-9_])")
+        for fid in list(F.fns):
+            f = F.fns[fid]
+            txt = json.dumps(f)
+            if nw not in txt:
+                continue
+            g = json.loads(pat.sub(old.replace("\\", "\\\\"), txt))
+            del F.fns[fid]
+            F.fns[g["id"]] = g
+        for im in F.impls:
+            for k, v in list(im.items()):
+                if isinstance(v, str) and nw in v:
+                    im[k] = pat.sub(old, v)
+    return pairs
+
+
 def uninlined_view(F):
-    """the fact base with every function as written (no new helper dissolved into its caller): for inventories that follow calls
-    themselves (lib/sympath.py effect inventories, who-may-call scans)"""
-    if not getattr(F, "new_helpers", None) or not F.new_helpers.get("inlined"):
+    """the fact base with every function as written (no new helper dissolved into its caller), for inventories that follow calls
+    themselves (lib/sympath.py effect inventories, who-may-call scans). One exception: a new helper that only hands back a table
+    (its return type is an array) is read in place, and loops over array literals are unrolled - a table-driven copy list reads like
+    the straight-line list it replaces."""
+    if not getattr(F, "new_helpers", None) or not (F.new_helpers.get("inlined") or F.new_helpers.get("unrolled")):
         return F
     cached = F.__dict__.get("_uninlined_view")
     if cached is None:
         import copy
+        from . import inline
         cached = copy.copy(F)
         cached.fns = dict(F.raw_fns)
         cached.__dict__.pop("_body_cache", None)
-        cached.new_helpers = {"new": F.new_helpers.get("new", []), "inlined": [], "kept": [], "combinators": F.new_helpers.get("combinators", [])}
+        kp = os.path.join(os.path.dirname(os.path.dirname(os.path.abspath(__file__))), "known_fns.txt")
+        with open(kp) as f:
+            known = {l.strip() for l in f if l.strip()}
+
+        def not_a_table(G, fid):
+            fn = G.fns.get(fid) or {}
+            return not str((fn.get("locals") or [{}])[0].get("ty", "")).startswith("[")
+        rep = inline.inline_new_helpers(cached, known, set(build.CRATES), keep=not_a_table)
+        for fid_ in list(cached.fns):
+            f_ = cached.fns[fid_]
+            if f_.get("crate") in build.CRATES:
+                nf_, n_ = inline.unroll_array_loops(cached, f_)
+                if nf_ is not None and n_:
+                    nf_["crate"] = f_.get("crate")
+                    cached.fns[fid_] = nf_
+        cached.new_helpers = {"new": F.new_helpers.get("new", []), "inlined": rep["inlined"], "kept": rep["kept"],
+                              "combinators": F.new_helpers.get("combinators", [])}
         F.__dict__["_uninlined_view"] = cached
     return cached
 
@@ -131,6 +211,13 @@ def raw_view(F, keep_loops=True):
     with open(kp) as f:
         known = {l.strip() for l in f if l.strip()}
     G.new_helpers = inline.inline_new_helpers(G, known, set(build.CRATES), keep=inline.has_source_loop)
+    for fid_ in list(G.fns):
+        f_ = G.fns[fid_]
+        if f_.get("crate") in build.CRATES:
+            nf_, n_ = inline.unroll_array_loops(G, f_)
+            if nf_ is not None and n_:
+                nf_["crate"] = f_.get("crate")
+                G.fns[fid_] = nf_
     G.new_helpers["combinators"] = F.new_helpers.get("combinators", [])
     F.__dict__["_raw_view"] = G
     return G
